@@ -407,7 +407,7 @@ def run(chk, replay=None):
 
 
 def gen_specs(chk):
-    n = 400 if chk.tier == 'thorough' else 110
+    n = 1500 if chk.tier == 'thorough' else 260
     g = None
     for i in range(n):
         g = c18gen.Gen(chk.rng, maxdepth=5)
@@ -490,7 +490,8 @@ def run_main(chk, wd):
     chk.obligation('translator: nsdict is injective (prefix:local identifies the qualified name)', m['nsdict_injective'])
     default_styles = m['default_styles']
     # 2 prove
-    chk.prove(drivers=['drv_xhtml'])
+    chk.prove(modules=['OdfModel.Props.C18', 'OdfModel.XhtmlLemmas', 'OdfModel.XhtmlText', 'OdfModel.XhtmlEscape'],
+              drivers=['drv_xhtml'])
     chk.notes.append('translate+prove %.1fs' % (time.time() - t0))
     t0 = time.time()
     drv = chk.driver('drv_xhtml')
@@ -551,6 +552,7 @@ CORPUS = [
         [['table', u'u', None, [[None, None]], [[None, [['cell', {'rs': None, 'cs': None, 'style': None}, [P(T(u'k1z'))]]]]]]]]]]]]])),
     ('moin-section-in-section', D([['section', u's1', [['section', u's2', [P(T(u'k1z'))]]]]])),
     ('moin-empty-citation', D([P(T(u'k1z'), ['note', 'footnote', u'', [P(T(u'k2z'))]])])),
+    ('moin-whitespace-span', D([P(T(u'k1z'), ['span', None, [['s', 2]]], T(u'k2z'))])),
     ('footnote', D([P(T(u'see'), ['note', 'footnote', u'1', [P(T(u'k2z'))]])])),
     ('empty-href', D([P(['a', u'', [T(u'k1z')]])])),
     ('meta-markup', D([P(T(u'x'))], meta={'title': u'T<&>', 'creator': u'A "q" <b>', 'language': u'e"n\'', 'userdef': [[u'n<', u'v&']]})),
